@@ -504,6 +504,11 @@ def main():
     for n in CONTAINER_TYPES + ["EVerMid", "SWithOnly", "EDir", "EOnly", "SVerOrder", "SAbiRem"]:
         nat.append('        // n(nschema_%s, "C12", "derive WithSchema for %s; savefile::get_schema; derive Serialize", "small-scope values of %s at its current version");' % (n, n, n))
         nat.append('        ("nschema_%s", (|s: &mut crate::src::EnumSrc| crate::schemaread::schema_faithful::<crate::family_gen::%s, _>(s)) as fn(&mut crate::src::EnumSrc)),' % (n, n))
+    for n in CONTAINER_TYPES:
+        nat.append('        // n(nfault_%s, "C08", "Serializer::save_impl; Deserializer::load_impl; savefile::save; savefile::load; derive Serialize/Deserialize for %s", "small-scope values of %s; every write-failure offset, flush failure, short writes 1..3 with Interrupted patterns, every read-failure offset, chunked reads 1..4; with and without schema");' % (n, n, n))
+        nat.append('        ("nfault_%s", (|s: &mut crate::src::EnumSrc| crate::native_misc::fault_family::<crate::family_gen::%s, _>(s)) as fn(&mut crate::src::EnumSrc)),' % (n, n))
+        nat.append('        // n(nintro_%s, "C17", "derive Introspect for %s (introspect_len; introspect_child)", "small-scope values of %s, recursively to depth 4, indices 0..len, len..2len+1 and near usize::MAX");' % (n, n, n))
+        nat.append('        ("nintro_%s", (|s: &mut crate::src::EnumSrc| crate::native_misc::intro_family::<crate::family_gen::%s, _>(s)) as fn(&mut crate::src::EnumSrc)),' % (n, n))
     nat += ["    ]", "}"]
     open(os.path.join(OUT, "native_family.rs"), "w").write("\n".join(nat) + "\n")
     open(os.path.join(OUT, "family_gen.rs"), "w").write("\n".join(out))
